@@ -40,6 +40,12 @@ func c11Progs() map[string]*Prog {
 			{Name: "b", Cmds: []C{{Extra: "WHO={{.WHO}}"}}},
 			{Name: "c", Dir: "d1", Cmds: []C{{Extra: "WHO={{.WHO}}"}}},
 		}}
+	// one task definition, a directory that depends on the call's variable and does not exist yet
+	m["templated-dir"] = &Prog{Tasks: []*T{
+		{Name: "d1", Cmds: []C{{Call: &Ref{Task: "mk", Vars: [][2]string{{"NAME", "one"}}}}}},
+		{Name: "d2", Cmds: []C{{Call: &Ref{Task: "mk", Vars: [][2]string{{"NAME", "two"}}}}}},
+		{Name: "mk", Dir: "out-{{.NAME}}", Cmds: []C{{Extra: "NAME={{.NAME}}", ShExtra: " pwd=$(basename $(pwd))"}}},
+	}}
 	m["matrix-ref-and-loops"] = &Prog{Tasks: []*T{
 		{Name: "m1", Cmds: []C{{Call: &Ref{Task: "looper", ListVars: [][2]string{{"L", "a b"}}}}}},
 		{Name: "m2", Cmds: []C{{Call: &Ref{Task: "looper", ListVars: [][2]string{{"L", "c"}}}}}},
@@ -102,6 +108,8 @@ func c11SeqUnit(pname string, pg *Prog, tier string) *Unit {
 		base := map[string][]string{}
 		for _, t := range roots {
 			sc := c11Scenario(name, pg, []string{t})
+			os.RemoveAll(dir) // (directories that an earlier run created must not help a later one)
+			os.MkdirAll(dir, 0o755)
 			sc.Materialise(dir)
 			x := runFree(sc, dir)
 			base[t] = linesOf(x.Trace, 1)
@@ -122,6 +130,9 @@ func c11SeqUnit(pname string, pg *Prog, tier string) *Unit {
 			for _, pre := range prefixes {
 				calls := append(append([]string{}, pre...), t)
 				sc := c11Scenario(name, pg, calls)
+				os.RemoveAll(dir)
+				os.MkdirAll(dir, 0o755)
+				sc.Materialise(dir)
 				x := runFree(sc, dir)
 				n++
 				got := linesOf(x.Trace, len(calls))
